@@ -129,6 +129,10 @@ theorem convert_anys_shape {a c : GoVal} (h : convert a .anys = .ok c) : ∃ ys,
     | (injection h with h; exact ⟨_, h.symm⟩)
     | (split at h <;> first | (injection h with h; exact ⟨_, h.symm⟩) | (split at h <;> first | (injection h with h; exact ⟨_, h.symm⟩) | cases h) | cases h)
     | cases h
+    | (next kvs _ =>
+        rcases MapOrder.sortedMapEntries_cases (ε := Cause) kvs with ⟨_, h1⟩ | ⟨_, w, h1⟩ <;> rw [h1] at h
+        · injection h with h; exact ⟨_, h.symm⟩
+        · cases h)
 
 theorem rrel_refl_of {α} {R : α → α → Prop} {t : Bool} (r : Res Cause α) (h : ∀ a, r = .ok a → R a a) : RRel t R r r := by
   cases r <;> simp [RRel]
@@ -152,8 +156,14 @@ theorem convert_anys_rel {a a' : GoVal} (h : URel false a a') :
       cases a' <;> simp [seqElems?] at hs <;> subst hs <;> exact ⟨_, _, rfl, rfl, convElems_rel hn⟩
     | map kt vt kvs =>
       rcases norm_inv_map hnd h.2.2 with rfl | ⟨_, vt', kvs', rfl, _, hn⟩
-      · exact ⟨_, _, rfl, rfl, rfl⟩
-      · exact ⟨_, _, rfl, rfl, convElems_rel (normKVs_vals hn)⟩
+      · simp only
+        rcases MapOrder.sortedMapEntries_cases (ε := Cause) kvs with ⟨_, h1⟩ | ⟨_, w, h1⟩ <;> rw [h1]
+        · exact ⟨_, _, rfl, rfl, rfl⟩
+        · simp [RRel]
+      · simp only
+        rcases sortedMapEntries_norm_rel hn with ⟨es, es', h1, h2, hs⟩ | ⟨w, h1, h2⟩ <;> rw [h1, h2]
+        · exact ⟨_, _, rfl, rfl, convElems_rel (normKVs_vals hs)⟩
+        · simp [RRel]
     | _ => simp [rigidF] at h1
 
 theorem convert_any_rel {a a' : GoVal} (h : URel false a a') :
